@@ -1824,10 +1824,11 @@ func (e *Entry) DefaultValues() []string {
 	}
 
 	if typ := e.Type; typ != nil && typ.HasDefault {
-		switch leaf := e.Node.(type) {
-		case *Leaf:
+		// Whether the leaf is mandatory is asked of the entry, which a
+		// deviation may have changed, not of the statement it was made of.
+		if _, ok := e.Node.(*Leaf); ok {
 			switch {
-			case e.IsLeaf() && (leaf.Mandatory == nil || leaf.Mandatory.Name == "false"), e.IsLeafList() && e.ListAttr.MinElements == 0:
+			case e.IsLeaf() && e.Mandatory != TSTrue, e.IsLeafList() && e.ListAttr.MinElements == 0:
 				return []string{typ.Default}
 			}
 		}
